@@ -82,6 +82,12 @@ struct ItemReq {
     /// mode "slice": contiguous top-level statements [a, b) of the function body
     #[serde(default)]
     stmts: Vec<usize>,
+    /// mode "slice": alternative anchor - statements from 0 up to (excluding) the first one containing this text
+    #[serde(default)]
+    stmts_until: String,
+    /// no body edits at all (verbatim text, used for the Kani lane)
+    #[serde(default)]
+    raw: bool,
 }
 
 #[derive(Serialize, Default)]
@@ -692,6 +698,8 @@ fn process_fn(
             }
             if stub {
                 ctx.edits.replace(open, src.end(b), "{ unimplemented!() }".to_string(), "STUB", "body dropped: contract-only (assumed for callers)".to_string());
+            } else if req.raw {
+                // verbatim
             } else {
                 if mut_self.is_some() {
                     ctx.edits.insert(open + 1, " let mut self_ = self;".to_string(), "D5", String::new());
@@ -908,12 +916,20 @@ fn process_fn(
     }
     if req.mode == "slice" {
         let b = block.ok_or_else(|| "unsupported: slice of a function without body".to_string())?;
-        if req.stmts.len() != 2 || req.stmts[0] >= req.stmts[1] || req.stmts[1] > b.stmts.len() {
-            return Err(format!("lost-anchor: statement range {:?} (function body has {} statements)", req.stmts, b.stmts.len()));
+        let mut range = req.stmts.clone();
+        if !req.stmts_until.is_empty() {
+            let k = b.stmts.iter().position(|st| src.text[src.start(st)..src.end(st)].contains(&req.stmts_until));
+            match k {
+                Some(k) if k > 0 => range = vec![0, k],
+                _ => return Err(format!("lost-anchor: no statement containing `{}`", req.stmts_until)),
+            }
         }
-        let s = src.start(&b.stmts[req.stmts[0]]);
-        let e = src.end(&b.stmts[req.stmts[1] - 1]);
-        ctx.edits.insert(s, String::new(), "SLICE", format!("only top-level statements {}..{} of the body are verified here; the rest of the function is dropped from this item", req.stmts[0], req.stmts[1]));
+        if range.len() != 2 || range[0] >= range[1] || range[1] > b.stmts.len() {
+            return Err(format!("lost-anchor: statement range {:?} (function body has {} statements)", range, b.stmts.len()));
+        }
+        let s = src.start(&b.stmts[range[0]]);
+        let e = src.end(&b.stmts[range[1] - 1]);
+        ctx.edits.insert(s, String::new(), "SLICE", format!("only top-level statements {}..{} of the body are verified here; the rest of the function is dropped from this item", range[0], range[1]));
         return Ok((s, e));
     }
     Ok((vis_start, item_end))
